@@ -186,6 +186,16 @@ pub fn build_with_history<A>(vm: &mut Vm<A>, v: &OV, extra: i64) -> Result<Value
             for i in 0..extra {
                 unsafe { (*t.as_ptr()).as_table_mut().unwrap().remove(Value::Integer(1_000_000 + i))? };
             }
+            if extra > 0 {
+                // a function value is never equal to itself: as a key it is inserted, listed, and popped
+                // from the key list again, but the hash part cannot find it - the table must count,
+                // compare and hash by its rows, not by what its hash part stores
+                let ghost = Value::Object(vm.init_function(mk_handle(0x6767), 0)?.into_inner());
+                unsafe {
+                    (*t.as_ptr()).as_table_mut().unwrap().insert(ghost, Value::Integer(1))?;
+                    (*t.as_ptr()).as_table_mut().unwrap().pop()?;
+                }
+            }
             vm.stack_pop();
             Value::Object(t)
         }
